@@ -1260,14 +1260,24 @@ hwloc__groups_by_distances(struct hwloc_topology *topology,
           group_obj->attr->group.subkind = topology->grouping_next_subkind;
           for (j=0; j<nbobjs; j++)
 	    if (groupids[j] == i+1) {
-	      /* assemble the group sets */
-	      hwloc_obj_add_other_obj_sets(group_obj, objs[j]);
+	      /* assemble the group sets.
+	       * CPU-less objects (NUMA nodes) cannot be located by cpuset,
+	       * they won't be below the group, don't add their nodesets.
+	       */
+	      if (objs[j]->cpuset && !hwloc_bitmap_iszero(objs[j]->cpuset))
+		hwloc_obj_add_other_obj_sets(group_obj, objs[j]);
               groupsizes[i]++;
             }
           hwloc_debug_1arg_bitmap("adding Group object with %u objects and cpuset %s\n",
                                   groupsizes[i], group_obj->cpuset);
-          res_obj = hwloc__insert_object_by_cpuset(topology, NULL, group_obj,
-                                                   (kind & HWLOC_DISTANCES_KIND_FROM_USER) ? "distances:fromuser:group" : "distances:group");
+          if (hwloc_bitmap_iszero(group_obj->cpuset)) {
+            /* only CPU-less objects, there is no place for this group in the tree */
+            hwloc_free_unlinked_object(group_obj);
+            res_obj = NULL;
+          } else {
+            res_obj = hwloc__insert_object_by_cpuset(topology, NULL, group_obj,
+                                                     (kind & HWLOC_DISTANCES_KIND_FROM_USER) ? "distances:fromuser:group" : "distances:group");
+          }
 	  /* res_obj may be NULL on failure to insert. */
 	  if (!res_obj)
 	    failed++;
